@@ -2,7 +2,7 @@
 """Automatic behaviour-preserving variants of every function a rule module looks at (robustness of the rules against
 refactors that do not change behaviour; DESIGN.md 4.4).
 
-usage: autoequiv.py <PROP> [--transform rename|preinc|noop|parens|unconst|braces|ltplus] [--bisect]
+usage: autoequiv.py <PROP> [--transform rename|preinc|noop|parens|unconst|braces|ltplus|eqswap|compound] [--bisect]
 
   rename : every local variable and parameter of every analysed function body gets a new name (whole-word replacement inside
            the function's line range, never after '.', '->' or '::'; names that coincide with a member/callee name used in the
@@ -169,7 +169,43 @@ def t_ltplus(lines, fn):
     return cnt
 
 
-TRANSFORMS = {"rename": t_rename, "noop": t_noop, "preinc": t_preinc, "parens": t_parens, "unconst": t_unconst, "braces": t_braces, "ltplus": t_ltplus}
+def t_eqswap(lines, fn):
+    """`X == 0` -> `0 == X` and `X != 0` -> `0 != X` (numeric literal on the right, X a simple operand) inside if/while conditions"""
+    cnt = 0
+    for i in range(fn["line"] - 1, min(fn["endline"], len(lines))):
+        l = lines[i]
+        if l.lstrip().startswith(("#", "//")) or '"' in l or "'" in l:
+            continue
+        if not re.search(r"\b(if|while)\s*\(", l):
+            continue
+        new, k = re.subn(r"(?<![\w\.\)\]>\*&!~+-])((?:this->)?[A-Za-z_]\w*(?:\(\))?) (==|!=) (-?\d+(?:\.\d*)?[fFuUlL]*)(?=\s*(?:\)|&&|\|\|))", r"\3 \2 \1", l)
+        if k:
+            lines[i] = new
+            cnt += k
+    return cnt
+
+
+def t_compound(lines, fn):
+    """`x += E;` -> `x = x + (E);` (also -=, *=) for locals of builtin arithmetic type declared in the same function"""
+    cnt = 0
+    lo, hi = fn["line"] - 1, min(fn["endline"], len(lines))
+    body = "".join(lines[lo:hi])
+    builtin = set(re.findall(r"\b(?:int|float|double|long|unsigned|std::size_t|size_t)\s+([A-Za-z_]\w*)\s*(?:=|;|\()", body))
+    builtin -= set(re.findall(r"\b(?:int|float|double|long|unsigned)\s*[&\*]\s*([A-Za-z_]\w*)", body))
+    if not builtin:
+        return 0
+    for i in range(lo, hi):
+        l = lines[i]
+        if l.lstrip().startswith(("#", "//")) or '"' in l or "for (" in l or "pragma" in l:
+            continue
+        m = re.match(r"^(\s*)([A-Za-z_]\w*) (\+|-|\*)= ([^;{}]+);(\s*(//.*)?)$", l.rstrip("\n"))
+        if m and m.group(2) in builtin and m.group(4).count("(") == m.group(4).count(")"):
+            lines[i] = "%s%s = %s %s (%s);%s\n" % (m.group(1), m.group(2), m.group(2), m.group(3), m.group(4), m.group(5))
+            cnt += 1
+    return cnt
+
+
+TRANSFORMS = {"rename": t_rename, "noop": t_noop, "preinc": t_preinc, "parens": t_parens, "unconst": t_unconst, "braces": t_braces, "ltplus": t_ltplus, "eqswap": t_eqswap, "compound": t_compound}
 
 
 def variant(fns, transform, scratch):
